@@ -286,9 +286,7 @@ theorem impOption_mss (s : Sig) (b : Base) (up : Option Int) (c : Nat × Nat)
       have hiff := mss_inRange_iff s (c.1 : Int) hw
       apply hiff.mp
       unfold inRange
-      have hlo : (mssBounds s).1 ≤ (c.1 : Int) := by
-        unfold mssBounds; split <;> simp <;> omega
-      simp [hlo, hok.2]
+      simp [hok.1, hok.2]
 
 /-- **window scale**: fixed value wins; admissible hint kept; otherwise a drawn, admissible value -/
 theorem impOption_ws (s : Sig) (b : Base) (up : Option Int) (c : Nat × Nat) :
@@ -339,7 +337,7 @@ theorem impOption_ws (s : Sig) (b : Base) (up : Option Int) (c : Nat × Nat) :
         omega
       · have he' : s.quirks .exws = false := by simpa using he
         simp only [he', Bool.false_eq_true, ↓reduceIte] at hnone
-        have hr : 1 ≤ c.1 ∧ c.1 ≤ 13 := by
+        have hr : c.1 ≤ 14 := by
           simpa [optChoiceOk, hs, he', hnone] using hok
         simp only [he', Bool.false_eq_true, false_iff, Int.not_lt]
         omega
@@ -372,7 +370,7 @@ theorem impOption_ts1 (s : Sig) (b : Base) (up : Option Int) (c : Nat × Nat) :
           · simp at hh
       | none =>
         simp only
-        have hr : 120 ≤ c.1 ∧ c.1 ≤ 3153600000 := by
+        have hr : 1 ≤ c.1 ∧ c.1 ≤ 4294967295 := by
           have := hok
           simp [optChoiceOk, hz, hup, hh] at this
           exact this.1
